@@ -129,6 +129,38 @@ def _all_tail(stmts) -> bool:
     return False
 
 
+def _terminates(stmts) -> bool:
+    if not stmts:
+        return False
+    last = stmts[-1]
+    if isinstance(last, (ast.Return, ast.Raise)):
+        return True
+    if isinstance(last, ast.If):
+        return bool(last.orelse) and _terminates(last.body) and _terminates(last.orelse)
+    return False
+
+
+def _guards_to_else(stmts):
+    """`if C: ..return A` followed by REST  ->  `if C: ..return A` `else: REST`  (a guard clause is the if-else it abbreviates);
+    a copy, applied recursively, so that a helper written with early returns has all its returns in tail position."""
+    out = []
+    for i, s in enumerate(stmts):
+        if isinstance(s, ast.If) and not s.orelse and _terminates(s.body) and i + 1 < len(stmts):
+            n = copy.copy(s)
+            n.body = _guards_to_else(s.body)
+            n.orelse = _guards_to_else(stmts[i + 1:])
+            out.append(n)
+            return out
+        if isinstance(s, ast.If):
+            n = copy.copy(s)
+            n.body = _guards_to_else(s.body)
+            n.orelse = _guards_to_else(s.orelse)
+            out.append(n)
+        else:
+            out.append(s)
+    return out
+
+
 def _tail_replace(stmts, make):
     """copy of a tail-return statement list with every `return E` replaced by make(E)"""
     if not stmts:
@@ -157,6 +189,8 @@ def expand_helpers(model: Model, cls: ClassInfo, func: ast.FunctionDef, depth: i
         return func
     selfn = func.args.args[0].arg
     f2 = copy.deepcopy(func)
+    inlined = set(getattr(func, "_nslsa_inlined", ()))
+    caller_names = {n.id for n in ast.walk(func) if isinstance(n, ast.Name)} | {a.arg for a in func.args.args}
 
     def helper_of(call) -> Optional[ast.FunctionDef]:
         if not (isinstance(call, ast.Call) and isinstance(call.func, ast.Attribute) and isinstance(call.func.value, ast.Name) and call.func.value.id == selfn):
@@ -176,11 +210,11 @@ def expand_helpers(model: Model, cls: ClassInfo, func: ast.FunctionDef, depth: i
         rets = [n for n in walk_no_nested(h) if isinstance(n, ast.Return)]
         if rets and not (len(rets) == 1 and h.body and h.body[-1] is rets[0]):
             # several returns are fine when each is the last thing its branch does (an if/elif/else ladder of results)
-            if not _all_tail(h.body):
+            if not _all_tail(_guards_to_else(h.body)):
                 return None
         return h
 
-    def instantiate(h: ast.FunctionDef, call: ast.Call):
+    def instantiate(h: ast.FunctionDef, call: ast.Call, keep=()):
         static = any(unparse(d) == "staticmethod" for d in h.decorator_list)
         params = [a.arg for a in (h.args.args if static else h.args.args[1:])]
         env = {}
@@ -206,7 +240,20 @@ def expand_helpers(model: Model, cls: ClassInfo, func: ast.FunctionDef, depth: i
         hself = h.args.args[0].arg if (h.args.args and not static) else selfn
         if hself != selfn:
             sub_env[hself] = ast.Name(id=selfn, ctx=ast.Load())
-        body = [ast.fix_missing_locations(_Subst(sub_env).visit(copy.deepcopy(s))) for s in h.body
+        # a local of the helper that the caller also uses as a name is the helper's own: renamed, so it cannot clobber the
+        # caller's variable once the statements sit side by side
+        ren = {loc: f"{loc}__{h.name.strip('_')}" for loc in sorted((rebound - set(params)) & caller_names) if loc not in keep}
+
+        class _Ren(ast.NodeTransformer):
+            def visit_Name(self, n):
+                if n.id in ren:
+                    n.id = ren[n.id]
+                return n
+
+        hbody = h.body
+        if any(isinstance(x, ast.Return) and x is not h.body[-1] for x in walk_no_nested(h)):
+            hbody = _guards_to_else(h.body)
+        body = [ast.fix_missing_locations(_Subst(sub_env).visit(_Ren().visit(copy.deepcopy(s)) if ren else copy.deepcopy(s))) for s in hbody
                 if not (isinstance(s, ast.Expr) and isinstance(s.value, ast.Constant))]
         for s in pre + body:
             for n in ast.walk(s):
@@ -227,6 +274,19 @@ def expand_helpers(model: Model, cls: ClassInfo, func: ast.FunctionDef, depth: i
             if isinstance(st, ast.Match):
                 for c in st.cases:
                     c.body = rewrite(c.body)
+            if isinstance(st, ast.For) and helper_of(st.iter) is not None:
+                # `for x in self.h(..):`  ->  the helper's statements, then the loop over what it returned
+                tmp = f"_iter{getattr(st, 'lineno', 0)}"
+                pre_ = ast.Assign(targets=[ast.Name(id=tmp, ctx=ast.Store())], value=st.iter, lineno=st.lineno, col_offset=0)
+                exp_ = rewrite([pre_])
+                if not (len(exp_) == 1 and exp_[0] is pre_):
+                    last_ = exp_[-1]
+                    if isinstance(last_, ast.Assign) and isinstance(last_.targets[0], ast.Name) and last_.targets[0].id == tmp and isinstance(last_.value, ast.Name):
+                        st.iter = ast.Name(id=last_.value.id, ctx=ast.Load())
+                        exp_ = exp_[:-1]
+                    else:
+                        st.iter = ast.Name(id=tmp, ctx=ast.Load())
+                    out.extend(exp_)
             call = None
             mode = None
             if isinstance(st, ast.Expr):
@@ -239,9 +299,16 @@ def expand_helpers(model: Model, cls: ClassInfo, func: ast.FunctionDef, depth: i
             if h is None:
                 out.append(st)
                 continue
-            body = instantiate(h, call)
+            inlined.add(h.name)
+            # the local the helper returns may keep its name when it is the very variable the call's result is assigned to
+            # (`opCode = self.h(..)` with `return opCode` in h) and no argument reads that variable
+            keep = set()
+            if mode == "assign" and isinstance(st.targets[0], ast.Name) and not any(isinstance(x, ast.Name) and x.id == st.targets[0].id for a_ in list(call.args) + [k.value for k in call.keywords] for x in ast.walk(a_)):
+                keep.add(st.targets[0].id)
+            body = instantiate(h, call, keep)
             last = body[-1] if body else None
-            if sum(1 for s_ in body for x_ in ast.walk(s_) if isinstance(x_, ast.Return)) > 1 and _all_tail(body):
+            nret_ = sum(1 for s_ in body for x_ in ast.walk(s_) if isinstance(x_, ast.Return))
+            if (nret_ > 1 or (nret_ == 1 and not isinstance(last, ast.Return))) and _all_tail(body):
                 # a ladder of results: every `return E` becomes what the call site does with the result
                 if mode == "assign":
                     mk = lambda v, st=st: [ast.Assign(targets=copy.deepcopy(st.targets), value=v if v is not None else ast.Constant(None), lineno=st.lineno, col_offset=0)]
@@ -269,8 +336,26 @@ def expand_helpers(model: Model, cls: ClassInfo, func: ast.FunctionDef, depth: i
 
     f2.body = rewrite(f2.body)
     ast.fix_missing_locations(f2)
+    changed = unparse(f2) != unparse(func)
+    if changed:
+        # the instantiated bodies are brought back into canonical form (`a, b = x, y` from a helper that returned a pair is
+        # two assignments; `x = x` from a parameter bound to a local of the same name is nothing)
+        from .canon import _Canon
+
+        class _DropSelf(ast.NodeTransformer):
+            def visit_Assign(self, n):
+                if len(n.targets) == 1 and isinstance(n.targets[0], ast.Name) and isinstance(n.value, ast.Name) and n.value.id == n.targets[0].id:
+                    return ast.copy_location(ast.Pass(), n)
+                return n
+
+        f2 = _Canon().visit(f2)
+        f2 = _DropSelf().visit(f2)
+        if not f2.body:
+            f2.body = [ast.Pass()]
+        ast.fix_missing_locations(f2)
+    f2._nslsa_inlined = inlined
     if depth > 1:
-        return expand_helpers(model, cls, f2, depth - 1, skip) if unparse(f2) != unparse(func) else f2
+        return expand_helpers(model, cls, f2, depth - 1, skip) if changed else f2
     return f2
 
 
